@@ -12,29 +12,42 @@
 //!   driver poll of the run loop;
 //! * explicit `Runtime::current_timeout()` probes.
 //!
-//! Rules (all but `early` and the bracketed ones are decided on logical
-//! grounds; wall clock only enters through `Instant` comparisons that are
-//! monotone on the runtime thread):
+//! Rules (only `poll-timeout-too-long` involves a tolerance; the others
+//! compare `Instant`s taken on the runtime thread, which are monotone, or
+//! are purely logical):
 //!
 //! * `early` — a completed sleep / elapsed timeout / tick observed `now <
-//!   deadline`.
+//!   deadline` (`now` taken first thing after the poll returned `Ready`; for
+//!   `sleep(d)` / `timeout(d, _)` the deadline is bounded below by the instant
+//!   taken just before the call plus `d`).
 //! * `poll-timeout-none` / `poll-timeout-too-long` — the run loop entered the
-//!   driver with timers waiting (last poll returned `Pending`, not dropped)
-//!   and no timeout, or `now + timeout > min deadline + 100 ms`. The latter is
+//!   driver (`PollEnter{timeout}`) with timers waiting (last poll returned
+//!   `Pending`, not dropped, not already expired-and-woken) and no timeout, or
+//!   `now + timeout > max(min deadline, now) + 100 ms`. The latter is
 //!   suppressed when the runtime thread itself was away for > 20 ms between
 //!   the last harness activity and the measurement, or the heartbeat thread
 //!   saw a scheduling stall during the program.
-//! * `not-woken` — a waiting timer with `deadline < t_after` of driver poll i
-//!   (so `TimerRuntime::wake` ran with `now > deadline`) whose registered
-//!   waker had not been woken when the run loop entered driver poll i+1.
+//! * `not-woken` — a waiting timer whose deadline was before the entry (or,
+//!   where observable, the exit) of driver poll i — so the
+//!   `TimerRuntime::wake` after that poll ran with `now > deadline` — and
+//!   whose most recent waker had not been woken when the run loop entered
+//!   driver poll i+1.
 //! * `pending-after-expiry` — such a timer was polled after that `wake()` and
 //!   returned `Pending`.
+//! * `stale-waker` — a timer that was `Pending` turned `Ready` although the
+//!   waker of its previous poll was never woken (an older waker was kept).
 //! * `ct-*` — `current_timeout()` disagrees with the set of live harness
-//!   timers (no entry although a live timer is in the future; first entry
-//!   later than a live timer; first entry matches no live timer = residue of
-//!   a dropped / fired timer).
+//!   timers (`ct-none-with-live-timer`: no entry although a live timer is in
+//!   the future; `ct-not-nearest`: first entry later than a live timer;
+//!   `ct-ghost-deadline`: first entry matches no live timer = residue of a
+//!   dropped / fired timer).
 //! * `idle-poll-timeout` — a driver poll of an idle runtime (no timers, no
 //!   tasks) with a timeout.
+//! * `timeout-*` — `Timeout` vs. its scripted inner future: `Ok` without the
+//!   inner having finished in that very poll, `Err(Elapsed)` / `Pending`
+//!   although the inner had finished or was ready when the poll began (inner
+//!   comes first in poll order), inner polled after completion, wrong value.
+//! * `interval-*` — checked by the interval actor in `c09.rs`.
 
 use std::{
     cell::{Cell, RefCell},
@@ -327,7 +340,7 @@ impl Mon {
                 "not-woken",
                 api,
                 format!(
-                    "{api} with deadline {} was waiting; a driver poll returned at {} (> deadline) and the run loop came back to the next driver poll at {} without the timer's waker having been woken",
+                    "{api} with deadline {} was waiting and expired before a driver poll (previous poll: exit observed at {}); TimerRuntime::wake ran after it, yet when the run loop entered the next driver poll at {} the timer's current waker had not been woken",
                     fmt_ns(d),
                     fmt_ns(ta),
                     fmt_ns(t)
@@ -557,6 +570,11 @@ pub struct Track {
     pub polls: Cell<u32>,
     pub ready_outer: Cell<Option<u32>>,
     pub after_ready: Cell<bool>,
+    /// "Would the scripted inner future return Ready if it were polled right
+    /// now?" — known for scripts whose readiness does not depend on being
+    /// polled by the timeout (ready at its k-th poll, ready once an instant
+    /// has passed, ready once a flag is set).
+    pub would_be_ready: RefCell<Option<Box<dyn Fn(&Track) -> bool>>>,
 }
 
 impl Track {
@@ -567,7 +585,12 @@ impl Track {
             polls: Cell::new(0),
             ready_outer: Cell::new(None),
             after_ready: Cell::new(false),
+            would_be_ready: RefCell::new(None),
         })
+    }
+
+    fn ready_if_polled(&self) -> bool {
+        self.would_be_ready.borrow().as_ref().is_some_and(|f| f(self))
     }
 }
 
@@ -716,11 +739,6 @@ impl<'a> Probe<'a> {
         }
     }
 
-    pub fn with_rec(mut self, rec: Option<usize>) -> Self {
-        self.rec = rec;
-        self
-    }
-
     pub fn with_track(mut self, t: Option<Rc<Track>>) -> Self {
         self.track = t;
         self
@@ -766,6 +784,9 @@ impl Future for Probe<'_> {
     fn poll(self: Pin<&mut Self>, cx: &mut Context<'_>) -> Poll<Out> {
         let me = self.get_mut();
         assert!(!me.done, "C09 harness: probe polled after completion");
+        // was the waker registered by the previous poll woken?
+        let was_woken = me.woken.is_woken();
+        let inner_ready_before = me.track.as_ref().is_some_and(|t| t.ready_if_polled());
         let w = me.waker(cx);
         let mut cx2 = Context::from_waker(&w);
         me.n_outer += 1;
@@ -818,6 +839,16 @@ impl Future for Probe<'_> {
                                     m.find("timeout-wrong-value", api, format!("{api} returned Ok({v}), inner produced {}", t.value));
                                 }
                             }
+                            Out::Tmo(Err(())) if inner_ready_before && t.ready_outer.get().is_none() => {
+                                m.find(
+                                    "timeout-elapsed-but-inner-ready",
+                                    api,
+                                    format!(
+                                        "{api} returned Err(Elapsed) in its poll #{n_outer} although its inner future was ready before that poll began (it finishes first in poll order); the inner future was polled {} times and never returned Ready",
+                                        t.polls.get()
+                                    ),
+                                );
+                            }
                             Out::Tmo(Err(())) => {
                                 if let Some(k) = t.ready_outer.get() {
                                     m.find(
@@ -832,6 +863,16 @@ impl Future for Probe<'_> {
                         if t.after_ready.get() {
                             m.find("timeout-inner-polled-after-ready", api, format!("{api} polled its inner future again after it had returned Ready"));
                         }
+                    }
+                    if expiry && !was_woken && m.recs[rec].st == St::Waiting {
+                        m.find(
+                            "stale-waker",
+                            api,
+                            format!(
+                                "{api} was Pending, then completed in its poll #{n_outer} at {}, but the waker it was given in its previous poll had not been woken (an older waker was kept)",
+                                fmt_ns(nown)
+                            ),
+                        );
                     }
                     m.polled(rec, true, expiry, tmo_ok, claimed, nown);
                 });
